@@ -142,6 +142,9 @@ func (s *liteSrv) handle(c *adnlsrv.Conn) {
 			raw, hasRaw := s.raw[fid]
 			s.mu.Unlock()
 			switch {
+			case waiting:
+				// the pool's background wait for the next block: never answered (an immediate answer would make the
+				// pool ask again at once, in a tight loop)
 			case hasRaw:
 				// frames of the script's own making, then the well-formed answer so that the caller returns
 				for _, f := range raw(id) {
@@ -152,8 +155,6 @@ func (s *liteSrv) handle(c *adnlsrv.Conn) {
 				}
 			case has:
 				c.SendPacket(append(append(le32(mAnswer), id...), tlBytes(ans)...))
-			case waiting:
-				// the pool's background wait for the next block: never answered
 			case fid == 0x89b5e62e: // liteServer.getMasterchainInfo
 				c.SendPacket(append(append(le32(mAnswer), id...), tlBytes(s.head)...))
 			default:
